@@ -9,12 +9,13 @@
      debugger            {is_active; single_stepping; breakpoints; last_state} with eval_state as in debugger.rs
      plain_run n s       run_program without a debugger, at most n loop iterations (None = fuel exhausted)
      arrivals n s        the states in which the plain run fetches and then executes an instruction
-     drive k n d s       transact (run_program with debugger d), then `resume` after every debug event, at most k
+     drive k n d s       transact (init_inner forgets the debugger's last state — Debugger::clear_last_state, repair
+                         22c6df9 — then run_program with debugger d), then `resume` after every debug event, at most k
                          resumes of at most n iterations: (reported events with the suspended state, final result)
      loc s               the (contract, pc offset) pair the debugger sees in state s
      wants d s           d is active and (single-stepping or has a breakpoint at loc s)
-     expected d l        the members of l that are reported: those that `wants`, minus a first one equal to a
-                         stale last_state of d
+     expected d l        the members of l that are reported by a run_program started with debugger d: those that
+                         `wants`, minus a first one equal to the last_state of d (None after transact's clear_last_state)
      sublist a b         a embeds into b order-preservingly, each element of b used at most once
    The only hypothesis is reflexivity of the id comparison (ContractId: Eq). *)
 From Coq Require Import List NArith Bool.
@@ -87,13 +88,14 @@ Theorem C32_events_exact :
       plain_run St Res fetch exec fault script_empty empty_result n s = Some r ->
       drive C C_eqb C_default St Res fetch exec fault cur_contract pc_off script_empty empty_result (S n) (S n) d s
       = (map (ev_of C C_default St cur_contract pc_off)
-             (if script_empty then [] else expected C C_eqb C_default St Res cur_contract pc_off d (arrivals St Res fetch exec n s)),
+             (if script_empty then [] else expected C C_eqb C_default St Res cur_contract pc_off (clear_last_state C Res d)
+                                                    (arrivals St Res fetch exec n s)),
          Some r).
 Proof. exact drive_exact. Qed.
 Print Assumptions C32_events_exact.
 
-(* ... which, when no last state is left over from an earlier session, are precisely the arrivals
-   at which the configuration asks for a stop (every one of them, once). *)
+(* ... which — whatever an earlier, possibly abandoned, session left in the debugger — are precisely
+   the arrivals at which the configuration asks for a stop (every one of them, once). *)
 Theorem C32_events_fresh :
   forall (C : Type) (C_eqb : C -> C -> bool) (C_default : C) (St Res : Type)
          (fetch : St -> bool) (exec : St -> St + Res) (fault : St -> Res)
@@ -102,20 +104,22 @@ Theorem C32_events_fresh :
     (forall c, C_eqb c c = true) ->
     forall (n : nat) (s : St) (r : Res) (d : debugger C Res),
       plain_run St Res fetch exec fault script_empty empty_result n s = Some r ->
-      last_state C Res d = None -> script_empty = false ->
+      script_empty = false ->
       fst (drive C C_eqb C_default St Res fetch exec fault cur_contract pc_off script_empty empty_result (S n) (S n) d s)
       = map (ev_of C C_default St cur_contract pc_off)
             (filter (wants C C_eqb C_default St Res cur_contract pc_off d) (arrivals St Res fetch exec n s)).
 Proof. exact drive_events_fresh. Qed.
 Print Assumptions C32_events_fresh.
 
-(* Stale last state (relevant to C31): a last_state left by an abandoned debug session is NOT
-   cleared by a new transaction and swallows the first event when the new run starts at the same
-   location — witness on the one-instruction self loop. *)
-Theorem C32_stale_last_state_witness :
+(* HISTORICAL — about the code BEFORE repair 22c6df9 (finding F9), kept as the regression witness:
+   when a new transaction inherited the debugger's last state (drive_before_22c6df9 = the same client
+   without clear_last_state), a last_state left by an abandoned session swallowed the first event of
+   a run starting at the same location; with the repaired transact (go) it makes no difference. *)
+Theorem C32_historical_stale_last_state_witness_before_22c6df9 :
   exists (d : debugger N N),
     last_state N N d <> None /\
-    fst (SelfLoop.go d) <> fst (SelfLoop.go (take_last_state N N d)) /\
-    snd (SelfLoop.go d) = snd (SelfLoop.go (take_last_state N N d)).
-Proof. exact SelfLoop.stale_last_state_witness. Qed.
-Print Assumptions C32_stale_last_state_witness.
+    fst (SelfLoop.go_before_22c6df9 d) <> fst (SelfLoop.go_before_22c6df9 (take_last_state N N d)) /\
+    snd (SelfLoop.go_before_22c6df9 d) = snd (SelfLoop.go_before_22c6df9 (take_last_state N N d)) /\
+    SelfLoop.go d = SelfLoop.go (take_last_state N N d).
+Proof. exact SelfLoop.historical_stale_last_state_witness_before_22c6df9. Qed.
+Print Assumptions C32_historical_stale_last_state_witness_before_22c6df9.
